@@ -76,6 +76,41 @@ theorem map_heap_agree_full_false :
      | _ => false) = true := by decide
 
 
+
+/-- `IndexOK` along **every** schedule of the patched code in which no object is pushed onto the heap
+while it is already there (`NoDupPush`): pending continuations, Empty, late answers — none of them can
+make an index field wrong; only a double push can (next theorem) -/
+theorem index_ok_invariant (sched : List InFlight.Step) (s s' : InFlight.St) (ok : InFlight.IndexOK s.h)
+    (hnd : Nsq.Proofs.InFlight.NoDupPush s sched) (hr : InFlight.run true s sched = InFlight.Res.ok s') :
+    InFlight.IndexOK s'.h :=
+  Nsq.Proofs.InFlight.run_indexOK sched s s' ok hnd hr
+
+/-- the remaining counter-example for `IndexOK` at quiescence: an answer (REQ 0) naming an id whose
+(re)delivery is between map insert and heap insert puts the object back on the queue while the parked
+delivery still pushes it; the next delivery pushes it a second time → two heap slots, one index -/
+def duplicateSchedule : List InFlight.Step :=
+  [.put 1, .startMapPush 1 1 10, .reqPop 1 1 0, .reqRemove 1, .reqPut 1, .startPQPush 1,
+   .startMapPush 1 1 20, .startPQPush 1]
+
+theorem index_ok_full_false :
+    (match InFlight.run true (InFlight.initSt []) duplicateSchedule with
+     | InFlight.Res.ok s => s.conts.isEmpty && decide (s.h.pq = [1, 1]) && decide (s.map = [1]) && !(InFlight.indexOkB s.h)
+     | _ => false) = true := by decide
+
+/-- the second remaining counter-example for `MapHeapAgree` (besides `zombieSchedule`): a FIN naming an
+id whose delivery is between map insert and heap insert — the heap keeps an entry the map has lost -/
+def lateAnswerSchedule : List InFlight.Step :=
+  [.put 1, .startMapPush 1 1 10, .finPop 1 1, .finRemove 1, .startPQPush 1]
+
+theorem map_heap_agree_late_answer :
+    (match InFlight.run true (InFlight.initSt []) lateAnswerSchedule with
+     | InFlight.Res.ok s => s.conts.isEmpty && s.map.isEmpty && decide (s.h.pq = [1]) && InFlight.indexOkB s.h
+     | _ => false) = true := by decide
+
+example : Nsq.Proofs.InFlight.NoDupPush (InFlight.initSt []) zombieSchedule := by
+  simp [Nsq.Proofs.InFlight.NoDupPush, Nsq.Proofs.InFlight.pushes, zombieSchedule, InFlight.step, InFlight.initSt,
+    InFlight.okH, InFlight.push, InFlight.up, InFlight.dropCont]
+
 /-! ### the heap code maintains its index fields (all heaps, all arguments) -/
 
 /-- `Push(x)` of an object not in the heap: afterwards every slot's object carries that slot's index -/
